@@ -388,6 +388,11 @@ class SimSocket(object):
             raise _err(errno.ENOTCONN)
         if self.state not in ("established", "connected0"):
             raise _err(errno.ENOTCONN)
+        # measured on Linux loopback: once the peer's RST has arrived shutdown() fails with ENOTCONN every time; after the
+        # peer's FIN the first shutdown() succeeds and a second one fails with ENOTCONN; on a healthy connection it may
+        # be repeated
+        if self.got_rst or (self.shut_wr and self.rxpipe is not None and self.rxpipe.fin):
+            raise _err(errno.ENOTCONN)
         if how in (_real.SHUT_WR, _real.SHUT_RDWR) and not self.shut_wr:
             self.shut_wr = True
             if self.txpipe is not None:
